@@ -24,6 +24,9 @@ ObjNest(d) == IF d = 1 THEN <<64, 65>> ELSE <<64, 20, 1, 97>> \o ObjNest(d - 1) 
 \* {"a": "<L bytes>"} : size = 2 + 3 + 3 + L
 Big(L) == <<64, 20, 1, 97>> \o F!EncStr(Rep(113, L)) \o <<65>>
 \* {"a":"<L>","b":[1,2,{"c":true}]}
+\* d nested objects, the innermost holds an array: stepping into and out of an array on the deepest permitted level
+RECURSIVE ObjNestArr(_)
+ObjNestArr(d) == IF d = 1 THEN <<64, 20, 1, 97, 66, 16, 1, 66, 67, 67, 65>> ELSE <<64, 20, 1, 97>> \o ObjNestArr(d - 1) \o <<65>>
 \* d nested objects, the innermost holds an L-byte string: with L > 1000 EVERY level exceeds serialize()'s first-try buffer
 RECURSIVE NestBig(_,_)
 NestBig(d, L) == IF d = 1 THEN Big(L) ELSE <<64, 20, 1, 97>> \o NestBig(d - 1, L) \o <<65>>
@@ -33,7 +36,7 @@ FamilyDocs ==
    \* keys that are identical up to and including an embedded 0x00, and an empty bytes value
    <<64, 20, 3, 107, 0, 97, 16, 1, 20, 3, 107, 0, 98, 16, 2, 65>>, <<64, 20, 3, 0, 97, 98, 68, 20, 2, 0, 98, 69, 65>>,
    <<64, 20, 1, 97, 24, 0, 20, 1, 98, 20, 0, 65>>} \cup
-  {ObjNest(d) : d \in {1, 2, 9, 10, 11, 12, 30}} \cup {NestBig(d, 1100) : d \in {3, 10, 11, 40}} \cup
+  {ObjNest(d) : d \in {1, 2, 9, 10, 11, 12, 30}} \cup {NestBig(d, 1100) : d \in {3, 10, 11, 40}} \cup {ObjNestArr(d) : d \in {1, 9, 10, 11}} \cup
   {Big(L) : L \in {985, 990, 991, 992, 993, 994, 1000, 1300}} \cup {Big2(L) : L \in {970, 975, 976, 977, 978, 979, 980, 985, 990, 995, 1000, 1010, 2000}}
 
 R0 == [done |-> FALSE, ok |-> FALSE, ref |-> FALSE, same |-> TRUE, back |-> TRUE]
